@@ -12,7 +12,7 @@ import vf
 
 
 def cfgtext(maxr, horizon):
-    return ("INIT Init\nNEXT Next\nVIEW View\nCONSTANTS\n  MAXR = %d\n  AT = 2\n  Horizon = %d\n  RespStopsWait = TRUE\n  QueuedMs = {0, 150}\n"
+    return ("INIT Init\nNEXT Next\nVIEW View\nCONSTANTS\n  MAXR = %d\n  AT = 2\n  Horizon = %d\n  RespStopsWait = TRUE\n  QueuedMs = {0, 150}\n  Deadlines = {0, 3, 1000}\n"
             "INVARIANTS Emit Inv_Bound Inv_Spacing Inv_StopAfter Inv_NoFalseSuccess\n" % (maxr, horizon))
 
 
@@ -45,16 +45,17 @@ def run(ctx):
         maximal = [h for h in hl if json.dumps(h) not in prefixes]
         import random
         cap = 6000 if thorough else 1500
-        direct = [h for h in maximal if h[0]["a"] != "queue"]
-        queued = [h for h in maximal if h[0]["a"] == "queue"]
+        direct = [h for h in maximal if h[0]["a"] not in ("queue", "deadline")]
+        queued = [h for h in maximal if h[0]["a"] in ("queue", "deadline")]    # variants: queued behind NSTART and / or a context with a deadline
         if len(direct) > cap:
             direct = random.Random(ctx.seed * 7 + maxr).sample(direct, cap)
             ctx.notes.append("MAX_RETRANSMIT=%d: seeded sample of %d witness histories" % (maxr, cap))
         # histories of a request that first waited 150 ms (real time) behind the NSTART limit: a seeded sample
-        qcap = 1500 if thorough else 250
+        qcap = 3000 if thorough else 500
         if len(queued) > qcap:
             queued = random.Random(ctx.seed * 11 + maxr).sample(queued, qcap)
-        ctx.cov["histories_queued_behind_nstart"] = ctx.cov.get("histories_queued_behind_nstart", 0) + len(queued)
+        ctx.cov["histories_queued_behind_nstart"] = ctx.cov.get("histories_queued_behind_nstart", 0) + sum(1 for h in queued if h[0]["a"] == "queue")
+        ctx.cov["histories_with_context_deadline"] = ctx.cov.get("histories_with_context_deadline", 0) + sum(1 for h in queued if any(a["a"] == "deadline" for a in h[:2]))
         maximal = direct + queued
         for h in maximal:
             stim.append({"t": len(stim) + 1, "maxr": maxr, "at": 2, "steps": h})
